@@ -68,14 +68,25 @@ OOperator(mode, T, x) == IF InRange(T, x) THEN OVal(T, x)
                          ELSE IF mode = "debug" THEN OPanic ELSE OVal(T, Wrap(T, x))
 OUnchecked(T, x)   == OVal(T, x)        \* only ever evaluated when the precondition InRange(T, x) holds
 
-ByForm(f, mode, T, x) ==
-    CASE f = "overflowing" -> OOverflowing(T, x)
-      [] f = "checked"     -> OChecked(T, x)
-      [] f = "wrapping"    -> OWrapping(T, x)
-      [] f = "saturating"  -> OSaturating(T, x)
-      [] f = "strict"      -> OStrict(T, x)
-      [] f = "op"          -> OOperator(mode, T, x)
-      [] f = "unchecked"   -> OUnchecked(T, x)
+\* Form names.  The operator forms are the by-value / by-reference operand combinations, the op-assign
+\* forms and the const inherent twin of an operator (property C17); the nt_ forms are the num_traits
+\* forwarders (property C18).  All of them must behave like the inherent form they are grouped with.
+OpForms == {"op", "op_rv", "op_vr", "op_rr", "op_assign", "op_assign_ref", "op_inherent"}
+CanonForm(f) == CASE f \in OpForms -> "op"
+                  [] f = "nt_checked" -> "checked"
+                  [] f = "nt_wrapping" -> "wrapping"
+                  [] f \in {"nt_saturating", "nt_saturating2"} -> "saturating"
+                  [] f = "nt_overflowing" -> "overflowing"
+                  [] OTHER -> f
+ByForm(ff, mode, T, x) ==
+    LET f == CanonForm(ff)
+    IN CASE f = "overflowing" -> OOverflowing(T, x)
+         [] f = "checked"     -> OChecked(T, x)
+         [] f = "wrapping"    -> OWrapping(T, x)
+         [] f = "saturating"  -> OSaturating(T, x)
+         [] f = "strict"      -> OStrict(T, x)
+         [] f = "op"          -> OOperator(mode, T, x)
+         [] f = "unchecked"   -> OUnchecked(T, x)
 
 \* arguments: typed integers, scalars, booleans, byte strings (self-describing in the event)
 ATy(arg) == [w |-> arg.w, s |-> arg.s]
